@@ -21,6 +21,17 @@ def main():
     import importlib
     for m in data["modules"]:
         importlib.import_module("contracts." + m)
+    if data["function"].startswith("custom:"):
+        res = [r for r in check.run_rt(data["modules"], [], custom=[w["custom"]]) if r["verdict"] == "violation"]
+        check.cleanup()
+        if not res:
+            print("bounded check %s no longer reports a violation" % data["function"])
+            sys.exit(0)
+        r = res[0]
+        print("bounded check:", data["function"])
+        print("input:", json.dumps(r.get("input")))
+        print("verdict: violation -", r.get("clause", ""))
+        sys.exit(1)
     res = check.run_rt(data["modules"], [{"key": data["function"], "inputs": [w["input"]]}])
     check.cleanup()
     r = res[0]
